@@ -15,6 +15,7 @@ import (
 	"sync"
 	"time"
 
+	"github.com/free5gc/chf/internal/cgf"
 	"github.com/free5gc/chf/internal/logger"
 	"github.com/free5gc/chf/pkg/abmf"
 	"github.com/free5gc/chf/pkg/factory"
@@ -48,7 +49,38 @@ const (
 	ciCount
 )
 
-func yamlFor(mask uint64, scheme, svc string, pem, key string, ports [3]int) string {
+// cfgOpts: values (not presence) a variant may alter: the protocol of either Diameter section ("none": key absent)
+// and whether the CGF (FTP transfer of CDR files) is enabled
+type cfgOpts struct {
+	rfProto, abmfProto string
+	cgfOn              bool
+}
+
+func parseCfgOpts(toks []string) (cfgOpts, bool) {
+	o := cfgOpts{rfProto: "tcp", abmfProto: "tcp"}
+	for _, t := range toks {
+		kv := strings.SplitN(t, "=", 2)
+		if len(kv) != 2 {
+			return o, false
+		}
+		switch kv[0] {
+		case "rfp":
+			o.rfProto = kv[1]
+		case "abp":
+			o.abmfProto = kv[1]
+		case "cgf":
+			o.cgfOn = kv[1] == "on"
+			if kv[1] != "on" && kv[1] != "off" {
+				return o, false
+			}
+		default:
+			return o, false
+		}
+	}
+	return o, true
+}
+
+func yamlFor(mask uint64, scheme, svc string, pem, key string, ports [5]int, opt cfgOpts) string {
 	has := func(i int) bool { return mask&(1<<uint(i)) == 0 }
 	var sb strings.Builder
 	w := func(f string, a ...interface{}) { fmt.Fprintf(&sb, f, a...) }
@@ -119,9 +151,13 @@ func yamlFor(mask uint64, scheme, svc string, pem, key string, ports [3]int) str
 			w("  mongodb:\n    name: free5gc\n    url: mongodb://localhost:27017\n")
 		}
 		w("  volumeLimit: 50000\n  volumeLimitPDU: 10000\n  volumeThresholdRate: 0.8\n")
-		dia := func(name string, item, tlsItem int, port int) {
+		dia := func(name string, item, tlsItem int, port int, proto string) {
 			if has(item) {
-				w("  %s:\n    protocol: tcp\n    hostIPv4: 127.0.0.1\n    port: %d\n", name, port)
+				w("  %s:\n", name)
+				if proto != "none" {
+					w("    protocol: %s\n", proto)
+				}
+				w("    hostIPv4: 127.0.0.1\n    port: %d\n", port)
 				if has(tlsItem) {
 					if name == "rfDiameter" && !has(ciRfTlsPem) {
 						w("    tls:\n      pem: \"\"\n      key: %s\n", key)
@@ -131,10 +167,15 @@ func yamlFor(mask uint64, scheme, svc string, pem, key string, ports [3]int) str
 				}
 			}
 		}
-		dia("rfDiameter", ciRf, ciRfTls, ports[1])
-		dia("abmfDiameter", ciAbmf, ciAbmfTls, ports[2])
+		dia("rfDiameter", ciRf, ciRfTls, ports[1], opt.rfProto)
+		dia("abmfDiameter", ciAbmf, ciAbmfTls, ports[2], opt.abmfProto)
 		if has(ciCgf) {
-			w("  cgf:\n    enable: false\n    hostIPv4: 127.0.0.1\n    port: 2121\n    listenPort: 2122\n")
+			if opt.cgfOn {
+				// the FTP server really starts: ports of its own
+				w("  cgf:\n    enable: true\n    hostIPv4: 127.0.0.1\n    port: %d\n    listenPort: %d\n", ports[3], ports[4])
+			} else {
+				w("  cgf:\n    enable: false\n    hostIPv4: 127.0.0.1\n    port: 2121\n    listenPort: 2122\n")
+			}
 			if has(ciCgfPortRange) {
 				w("    passiveTransferPortRange:\n      start: 2123\n      end: 2130\n")
 			}
@@ -171,6 +212,28 @@ func genConfig(o genOpts, w *bufio.Writer) {
 		emit(0, "http", sv)
 		emit(0, "https", sv)
 	}
+	// values other than the baseline's: the protocol of either Diameter section (the runtime reads the tls block whatever
+	// the protocol says) and an enabled CGF (its start-up reads cgf.* ): baseline, every single removal, and every pair
+	// of removals for the combination (thorough: for each)
+	optSets := []string{"rfp=sctp", "abp=sctp", "rfp=udp abp=udp", "rfp=none", "abp=none", "cgf=on", "rfp=sctp abp=sctp cgf=on"}
+	for k, oset := range optSets {
+		for _, sc := range []string{"http", "https"} {
+			if sc == "https" && k != len(optSets)-1 {
+				continue
+			}
+			fmt.Fprintf(w, "config run 0 %s ok %s\n", sc, oset)
+			for i := 0; i < ciCount; i++ {
+				fmt.Fprintf(w, "config run %d %s ok %s\n", 1<<uint(i), sc, oset)
+			}
+		}
+		if k == len(optSets)-1 || o.tier == "thorough" {
+			for i := 0; i < ciCount; i++ {
+				for j := i + 1; j < ciCount; j++ {
+					fmt.Fprintf(w, "config run %d http ok %s\n", 1<<uint(i)|1<<uint(j), oset)
+				}
+			}
+		}
+	}
 	r := &rng{s: o.seed}
 	extra := o.n
 	if o.tier == "thorough" {
@@ -186,10 +249,18 @@ func genConfig(o genOpts, w *bufio.Writer) {
 	for i := 0; i < extra; i++ {
 		emit(r.next()&(1<<ciCount-1)&r.next(), r.pickStr("http", "https", "https", "ftp", "none"), r.pickStr("ok", "ok", "ok", "unknown", "empty"))
 	}
+	for i := 0; i < extra; i++ {
+		fmt.Fprintf(w, "config run %d %s %s rfp=%s abp=%s cgf=%s\n", r.next()&(1<<ciCount-1)&r.next()&r.next(), r.pickStr("http", "https"),
+			r.pickStr("ok", "ok", "ok", "ok-all", "unknown"), r.pickStr("tcp", "sctp", "udp", "none"), r.pickStr("tcp", "sctp", "sctp", "none"), r.pickStr("on", "off"))
+	}
 }
 
 func runConfig(line string, t []string) string {
-	if len(t) != 4 || t[0] != "run" {
+	if len(t) < 4 || t[0] != "run" {
+		return "bad-op"
+	}
+	opt, ok := parseCfgOpts(t[4:])
+	if !ok {
 		return "bad-op"
 	}
 	dir, err := os.MkdirTemp("", "verif-cfg-")
@@ -198,11 +269,15 @@ func runConfig(line string, t []string) string {
 	}
 	defer os.RemoveAll(dir)
 	pem, key := writeCert(dir)
-	ports := [3]int{freePort(), freePort(), freePort()}
-	y := yamlFor(u(t[1]), t[2], t[3], pem, key, ports)
+	ports := [5]int{freePort(), freePort(), freePort(), freePort(), freePort()}
+	y := yamlFor(u(t[1]), t[2], t[3], pem, key, ports, opt)
 	f := filepath.Join(dir, "chfcfg.yaml")
 	if err := os.WriteFile(f, []byte(y), 0o600); err != nil {
 		panic(err)
+	}
+	if opt.cgfOn {
+		// cgf.OpenServer writes the FTP server's settings to this fixed path
+		defer os.Remove("/tmp/config.json")
 	}
 	cmd := exec.Command(os.Args[0], "config-child", f)
 	cmd.Env = append(os.Environ(), "GOTRACEBACK=none")
@@ -236,6 +311,12 @@ func configChild(path string) {
 		// a configuration that validates but cannot be used is a start-up failure, not a rejection
 		fmt.Println("crash: NewApp:", err)
 		os.Exit(3)
+	}
+	// pkg/service (*ChfApp).Start: the CGF first, when enabled
+	if cfg.Configuration.Cgf.Enable {
+		cgf.CGFEnable = true
+		wg.Add(1)
+		cgf.OpenServer(ctx, &wg)
 	}
 	wg.Add(2)
 	rf.OpenServer(ctx, &wg)
